@@ -49,9 +49,4 @@ for pid in ids:
         reason = reg.get("not_applicable", {}).get(pid, "check not built yet in this round (planned, see DESIGN.md §3)")
         m["not_applicable"].append({"property_id": pid, "reason": reason})
 json.dump(m, open(os.path.join(VERIF, "MANIFEST.json"), "w"), indent=1)
-try:
-    import jsonschema
-    jsonschema.validate(m, json.load(open("/root/.vp/MANIFEST.schema.json")))
-    print("MANIFEST.json valid: %d checks, %d not_applicable" % (len(m["checks"]), len(m["not_applicable"])))
-except ImportError:
-    print("MANIFEST.json written (jsonschema not available for validation)")
+sys.exit(subprocess.call([sys.executable, os.path.join(VERIF, "lib", "validate.py"), "/root/.vp/MANIFEST.schema.json", os.path.join(VERIF, "MANIFEST.json")]))
